@@ -85,7 +85,11 @@ func varyClass(h http.Header, f string) string {
 }
 
 func runC04(x *mc.X) {
-	plan := mc.Pick(x, "plan", []string{"wide", "narrow-deep"})
+	plan := mc.Pick(x, "plan", []string{"wide", "narrow-deep", "different-meaning-pairs"})
+	if plan == "different-meaning-pairs" {
+		runC04Pairs(x)
+		return
+	}
 	depth := 3
 	reqs, varys := append(append([]c04Req{}, c04Reqs...), c04NoCache...), c04Varys
 	if x.Tier() != "thorough" {
@@ -159,4 +163,60 @@ func clip(s string) string {
 		return s[:24]
 	}
 	return s
+}
+
+// c04Pairs: two values of a commonly nominated field that clearly mean different things — whatever
+// normalisation the cache applies, requests carrying them must not receive each other's responses.
+var c04Pairs = [][3]string{
+	{"Accept", "text/html", "application/json"},
+	{"Accept", "text/html;q=0.5, application/json", "text/html, application/json;q=0.5"},
+	{"Accept", "text/html", "text/html, application/json"},
+	{"Accept-Language", "en", "fr"},
+	{"Accept-Language", "en, fr;q=0.5", "fr, en;q=0.5"},
+	{"Accept-Encoding", "gzip", "br"},
+	{"Accept-Encoding", "gzip, br", "gzip"},
+	{"Accept-Encoding", "gzip", "identity"},
+	{"Authorization", "Bearer abc", "Bearer abd"},
+	{"Authorization", "Bearer abc", "Bearer ABC"},
+	{"Authorization", "Basic abc", "Bearer abc"},
+	{"User-Agent", "agent/1", "agent/2"},
+	{"Cookie", "a=1", "a=2"},
+	{"Cookie", "a=1; b=2", "a=1"},
+	{"X-A", "1", "10"},
+	{"X-A", "1", "1 "+"2"},
+	{"Accept-Charset", "utf-8", "iso-8859-1"},
+	{"If-Modified-Since", "Mon, 01 Jan 1990 00:00:00 GMT", "Tue, 02 Jan 1990 00:00:00 GMT"},
+}
+
+func runC04Pairs(x *mc.X) {
+	pi := x.Choose("pair", len(c04Pairs))
+	p := c04Pairs[pi]
+	x.Trace[len(x.Trace)-1].Desc = fmt.Sprintf("%s: %q vs %q", p[0], p[1], p[2])
+	dir := x.Choose("direction", 2)
+	vary := mc.Pick(x, "vary-spelling", []string{"canonical", "lower", "with-other-field"})
+	a, b := p[1], p[2]
+	if dir == 1 {
+		a, b = b, a
+	}
+	v := p[0]
+	switch vary {
+	case "lower":
+		v = strings.ToLower(v)
+	case "with-other-field":
+		v = "X-Other, " + v
+	}
+	w := world.New(world.Opt{})
+	defer w.Close()
+	answer(w, RS{Status: 200, H: H("Cache-Control", "max-age=100000", "Vary", v)})
+	o1 := get(w, U, p[0], a)
+	logObs(x, fmt.Sprintf("GET %s=%q (origin Vary: %s)", p[0], a, v), o1)
+	world.Advance(secs(1))
+	o2 := get(w, U, p[0], b)
+	logObs(x, fmt.Sprintf("GET %s=%q", p[0], b), o2)
+	x.Nontrivial("pair/" + p[0])
+	x.State("pair", p[0], a, b, vary, obsClass(o2))
+	x.Sample(map[string]any{"field": p[0], "stored_for": a, "requested_with": b, "vary": v, "observed": o2.String()})
+	if o2.Panic == nil && o2.Err == nil && o1.Tok != "" && o2.Tok == o1.Tok {
+		x.Failf("wrong variant served: "+p[0]+" values with different meaning share a response", "stored for %s=%q (Vary: %s), returned for %s=%q: %s", p[0], a, v, p[0], b, o2)
+	}
 }
